@@ -191,6 +191,27 @@ def _make_dense(np, shape, dtype, seed, density=0.5):
     return out.astype(dt).reshape(shape)
 
 
+def _relayout(np, a, layout):
+    """the same values in another memory layout: F (np.asfortranarray), Fcopy (copy(order="F")), T (transposed
+    view of a C array), sliced (every other element of the last axis of a larger array), rev (reversed first axis)"""
+    if layout in (None, "C") or a.ndim == 0:
+        return a
+    if layout == "F":
+        return np.asfortranarray(a)
+    if layout == "Fcopy":
+        return a.copy(order="F")
+    if layout == "T":
+        base = np.ascontiguousarray(a.T)          # C array of the reversed shape
+        return base.T
+    if layout == "sliced":
+        big = np.zeros(a.shape[:-1] + (2 * a.shape[-1],), dtype=a.dtype)
+        big[..., ::2] = a
+        return big[..., ::2]
+    if layout == "rev":
+        return np.ascontiguousarray(a[::-1])[::-1]
+    raise ValueError(layout)
+
+
 def _levels(F, kind, ndim):
     if kind == "dense":
         return F.Dense()._get_levels_from_ndim(ndim)
@@ -335,7 +356,9 @@ def _make_operand(W, spec, dense, copy=None):
         return sparse.asarray(m, copy=copy), ins, m
     if k == "dense" and spec.get("order") in (None, list(range(spec["ndim"]))) and spec.get("via") != "arrays" \
             and not spec.get("strided"):
-        return sparse.asarray(dense, copy=copy), [dense], None
+        src = _relayout(np, dense, spec.get("layout"))
+        assert np.array_equal(src, dense)
+        return sparse.asarray(src, copy=copy), [src], None
     fmt = _fmt_of_spec(W, spec, dense.dtype)
     arrs = _build_arrays(np, dense, fmt.levels, fmt.order, fmt.pos_width, fmt.crd_width)
     if spec.get("strided"):
@@ -393,7 +416,16 @@ def impl_numeric(case):
     ops, keep, snaps = [], [], []
     out = {"inputs": []}
     for s, d in zip(case["operands"], denses, strict=True):
+        if case.get("copy") is False and s["kind"] == "dense" and s.get("layout") \
+                and not _relayout(np, d, s["layout"]).flags["C_CONTIGUOUS"]:
+            try:
+                _make_operand(W, s, d, copy=False)
+            except NotImplementedError:
+                return {"rejected_noncontiguous_copy_false": True}      # the documented behaviour
+            return {"exc": "NoError", "msg": "copy=False accepted a non-C-contiguous array (it cannot alias it)"}
         a, ins, m = _make_operand(W, s, d, copy=case.get("copy"))
+        if s["kind"] == "dense":
+            out.setdefault("layout_flags", []).append([bool(ins[0].flags["C_CONTIGUOUS"]), bool(ins[0].flags["F_CONTIGUOUS"])])
         ops.append(a)
         keep.append((ins, m))
         snaps.append([x.tobytes() for x in ins])
@@ -697,6 +729,10 @@ RESHAPES = [((3, 4), (2, 6)), ((3, 4), (12,)), ((3, 4), (2, 3, 2)), ((4, 1), (4,
 def spec_variants(ndim, rng, widths=(64,)):
     """storage-format specs available at a rank"""
     out = [dict(kind="dense", ndim=ndim)]
+    if ndim >= 2:
+        # the same dense input in another memory layout (F-contiguous-only, transposed view, non-contiguous)
+        out.append(dict(kind="dense", ndim=ndim, layout=rng.choice(["F", "T", "Fcopy"])))
+        out.append(dict(kind="dense", ndim=ndim, layout=rng.choice(["sliced", "rev", "T"])))
     w = rng.choice(widths)
     if ndim == 2:
         out += [dict(kind="scipy_csr", ndim=2), dict(kind="scipy_csc", ndim=2), dict(kind="scipy_coo", ndim=2),
@@ -735,6 +771,17 @@ def numeric_cases(tier, rng):
                     seed += 1
                     cases.append(dict(op="roundtrip", dtype=dt, operands=[shp(spec, shape)], seed=seed,
                                       copy=rng.choice([None, None, True, False])))
+    # dense inputs of every memory layout x copy mode (conversion stream); shapes include the degenerate ones
+    # that are both C- and F-contiguous
+    for dt in (["float64", "int32", "complex64"] if quick else DT_PLAIN + ["complex64", "complex128", "float16"]):
+        for shape in [(3, 4), (1, 5), (4, 1), (2, 3, 4), (2, 1, 3), (2, 3, 2, 2), (5,)]:
+            if quick and dt != "float64" and shape not in [(3, 4), (2, 3, 4)]:
+                continue
+            for layout in ("C", "F", "Fcopy", "T", "sliced", "rev"):
+                for cp in (None, True, False):
+                    seed += 1
+                    cases.append(dict(op="roundtrip", dtype=dt, seed=seed, copy=cp,
+                                      operands=[shp(dict(kind="dense", ndim=len(shape), layout=layout), shape)]))
     # dense level orders (asformat to a permuted dense format, then to_numpy)
     for nd in (2, 3, 4):
         perms = list(itertools.permutations(range(nd)))
@@ -1172,10 +1219,10 @@ def campaign(build, tier, seed, report, budget=1):
             continue
         if r.get("abort_at_exit") is not None:
             nviol(i, f"the interpreter aborted while finalising (exit {r['abort_at_exit']}: heap corruption / double free)")
+        if r.get("rejected_noncontiguous_copy_false"):
+            tag("copy=False on a non-C-contiguous ndarray rejected (documented)")
+            continue
         if "exc" in r and "expected" not in r:
-            if c["op"] == "roundtrip" and c.get("copy") is False and r["exc"] in ("NotImplementedError", "ValueError"):
-                tag("roundtrip/copy=False rejected")
-                continue
             nviol(i, f"raised {r['exc']}: {r.get('msg')}")
             continue
         if not r.get("inputs_unchanged", True):
